@@ -158,6 +158,7 @@ func (h *c08Harness) take() []string {
 
 func runC08(t failer, c c08Case) {
 	ev.Eval()
+	journal("C08", c)
 	fail := func(i int, sig, format string, args ...interface{}) {
 		violation(t, "C08", "sessions", "C08:"+sig, c, "step %d %+v: "+format, append([]interface{}{i, c.Steps[i]}, args...)...)
 	}
